@@ -152,6 +152,13 @@ fn frame() -> BoxedStrategy<(String, String)> {
         2 => (g::plain_word(), g::plain_word()).prop_map(|(a, b)| (format!("{a} "), format!(" {b}."))),
         1 => Just(("(".to_string(), ")".to_string())),
         1 => Just(("\"".to_string(), "\"".to_string())),
+        // joined to a word by a hyphen; other numbers and suffix-like words earlier in the sentence
+        3 => (g::sel_str(&["mid-", "top-", "pre-", "a sub-", "-", "the post-", "x-", "1st-", "3-"]), g::sel_str(&["", " item.", " century", "-", "-9th"]))
+            .prop_map(|(a, b)| (a, b)),
+        3 => (g::sel_str(&["At 21 St Marks Place the ", "See 101 St Johns Road, then the ", "the 4 th and the ", "The 1st, the 22nd and the ", "In 1990s terms the ", "Take 5 then ", "No. 7 nd "]), g::sel_str(&["", " floor.", " x", "."]))
+            .prop_map(|(a, b)| (a, b)),
+        3 => (proptest::collection::vec(g::plain_word(), 1..6), g::sel_str(&[" ", ", ", " - ", "; ", ": ", "\n", "\t"]), proptest::collection::vec(g::plain_word(), 0..3))
+            .prop_map(|(a, sep, b)| (format!("{}{sep}", a.join(" ")), if b.is_empty() { String::new() } else { format!(" {}", b.join(" ")) })),
     ]
     .boxed()
 }
